@@ -351,7 +351,7 @@ func ruleZ2(c *Ctx, id string) {
 	if indshrink != nil {
 		okg := false
 		for _, r := range nonConstReturns(indshrink, 0) {
-			if r.Results[0] == ssa.Value(indshrink.Params[2]) && len(r.Block().Preds) > 0 {
+			if rp := paramM(indshrink, 2); rp != nil && r.Results[0] == rp && len(r.Block().Preds) > 0 {
 				okg = true
 			}
 		}
